@@ -17,7 +17,7 @@ func runC14(opt *Options) int {
 	}
 	lr := &laRun{
 		Opt:  opt,
-		Pkgs: []string{"method", "pkgload", "config"},
+		Pkgs: []string{"method", "pkgload", "config", "xtype"},
 		Kernels: []layera.Kernel{
 			// which parameters of a custom function are contexts by its own doc comment (goverter:context NAME)
 			{Name: "K7.localconfig", Pkg: "pkgload", Harness: "VerifHarness_C19_LocalConfig", Unwind: 64},
@@ -26,6 +26,8 @@ func runC14(opt *Options) int {
 			{Name: "K4.parse", Pkg: "method", Harness: "VerifHarness_C14_Parse", Unwind: 16, MaxPaths: 30000000, Workers: 16, SetInts: map[string]int{"VerifC14MaxParams": maxParams, "VerifC14WideRegexParams": wideParams}},
 			{Name: "K4.notafunction", Pkg: "method", Harness: "VerifHarness_C14_NotAFunction", Unwind: 16},
 			{Name: "K4.functionvariable", Pkg: "method", Harness: "VerifHarness_C14_FunctionVariable", Unwind: 64},
+			// (whether a custom function may be named from the output package is decided by xtype.Accessible)
+			{Name: "K5.accessible", Pkg: "xtype", Harness: "VerifHarness_C03_Accessible", Unwind: 16},
 		},
 		Funcs:  []string{"method.Parse", "method.isError", "method.(*Definition).ArgDebug", "xtype.Accessible", "xtype.TypeOf"},
 		Bounds: "signatures with 0..2 (thorough: 0..3) parameters and 0..3 results; per parameter: plain / converter-typed / named like the update argument / matching arg:context:regex / listed as local context; per result: struct, error, int; options: ParamType / multi-source / AllowTypeParams / output package path symbolic (decided by the solver), update, context regex, converter type, exported, generic enumerated",
